@@ -4,15 +4,15 @@
 EXTENDS Chunker, TraceLib
 
 VARIABLES l
-tvars == <<l, input, cur, off, MaxTokens, Propagate>>
+tvars == <<l, input, cur, off, MaxTokens, Propagate, Graph>>
 
 IsEvent(e) == l <= NRec /\ Rec[l].ev = e /\ l' = l + 1
 E == Rec[l]
 
-TInit == l = 1 /\ input = <<>> /\ cur = 1 /\ off = 0 /\ MaxTokens = 0 /\ Propagate = FALSE
+TInit == l = 1 /\ input = <<>> /\ cur = 1 /\ off = 0 /\ MaxTokens = 0 /\ Propagate = FALSE /\ Graph = FALSE
 
 TReset == /\ IsEvent("reset")
-          /\ input' = E.input /\ cur' = 1 /\ off' = 0 /\ MaxTokens' = E.maxTokens /\ Propagate' = E.propagate
+          /\ input' = E.input /\ cur' = 1 /\ off' = 0 /\ MaxTokens' = E.maxTokens /\ Propagate' = E.propagate /\ Graph' = (E.entry = "graph")
 
 TEmit == /\ IsEvent("emit")
          /\ Emit(E.chunk)
@@ -20,12 +20,12 @@ TEmit == /\ IsEvent("emit")
 \* the chunker returned: everything must have been emitted
 TEnd == /\ IsEvent("end")
         /\ Complete
-        /\ UNCHANGED <<input, cur, off, MaxTokens, Propagate>>
+        /\ UNCHANGED <<input, cur, off, MaxTokens, Propagate, Graph>>
 
 \* a second run on the same input gave the same chunks
 TDeterministic == /\ IsEvent("deterministic")
                   /\ E.same
-                  /\ UNCHANGED <<input, cur, off, MaxTokens, Propagate>>
+                  /\ UNCHANGED <<input, cur, off, MaxTokens, Propagate, Graph>>
 
 TNext == TReset \/ TEmit \/ TEnd \/ TDeterministic
 TraceSpec == TInit /\ [][TNext]_tvars
